@@ -60,7 +60,7 @@ func c02Gen(c *core.Ctx) func(yield func(c02Case) bool) {
 			}
 			return e
 		}
-		ks := []int{2, 3, 4, 5, 6, 7, 8}
+		ks := []int{2, 3, 4, 5, 6, 7, 8, 32, 100}
 		if c.Thorough() {
 			ks = []int{2, 3, 4, 5, 6, 7, 8, 9, 10, 11, 12, 13, 14, 15, 16, 32, 64, 128, 256}
 		}
@@ -108,6 +108,31 @@ func c02Gen(c *core.Ctx) func(yield func(c02Case) bool) {
 				e[i][i+1], e[i+1][i] = scen.EName, scen.EName
 			}
 			if !emit(fmt.Sprintf("2cycle-chain-%d", m), m+1, e) {
+				return
+			}
+		}
+		// wheels: a hub that collects the whole rim through its slice, the rim is a cycle and
+		// every rim node points back to the hub; ladders of 2-cycles with rungs
+		for _, k := range []int{3, 5, 12, 40} {
+			e := mkEdges(k + 1)
+			for i := 1; i <= k; i++ {
+				e[0][i] = scen.ESlice
+				e[i][1+i%k] = scen.EName
+				e[i][0] = scen.EPtr
+			}
+			if !emit(fmt.Sprintf("wheel-%d", k), k+1, e) {
+				return
+			}
+		}
+		for _, k := range []int{2, 6, 30} {
+			e := mkEdges(2 * k)
+			for i := 0; i < k; i++ {
+				e[i][k+i], e[k+i][i] = scen.EName, scen.ESlice // rung, both ways
+				if i+1 < k {
+					e[i][i+1], e[k+i+1][k+i] = scen.EPtr, scen.EName // rails in opposite directions
+				}
+			}
+			if !emit(fmt.Sprintf("ladder-%d", k), 2*k, e) {
 				return
 			}
 		}
